@@ -44,6 +44,8 @@ pub enum WnOc {
     Ok,
     Err,
     Panic,
+    /// panics inside `World::new()` itself, before it returns its future
+    PanicEager,
 }
 
 #[derive(Clone, Copy, Debug)]
@@ -81,7 +83,7 @@ pub fn wn_token(oc: WnOc, inv: usize) -> Option<Tok> {
     match oc {
         WnOc::Ok => None,
         WnOc::Err => Some(Tok::Str(format!("wn-err#{inv}"))),
-        WnOc::Panic => Some(Tok::Str(format!("wn-panic#{inv}"))),
+        WnOc::Panic | WnOc::PanicEager => Some(Tok::Str(format!("wn-panic#{inv}"))),
     }
 }
 
@@ -233,7 +235,9 @@ pub struct W {
 impl World for W {
     type Error = String;
 
-    async fn new() -> Result<Self, String> {
+    // Deliberately not an `async fn`: the trait asks for `fn new() -> impl Future`, so a hand-written
+    // implementation may run code (and panic) before it returns its future.
+    fn new() -> impl std::future::Future<Output = Result<Self, String>> {
         let (n, oc, gates) = with_lab(|l| {
             let n = l.wn_calls;
             l.wn_calls += 1;
@@ -255,6 +259,32 @@ impl World for W {
             });
             (n, oc, g)
         });
+        if oc == WnOc::PanicEager {
+            with_lab(|l| {
+                let seq = l.tick();
+                l.activity += 1;
+                l.calls.push(Call {
+                    seq,
+                    key: "WorldNew".into(),
+                    inv: n,
+                    phase: Phase::Exit,
+                    world: None,
+                    counter: 0,
+                    oc: Oc::Pass,
+                    wn: oc,
+                    reason: None,
+                    args: None,
+                    at: Instant::now(),
+                });
+            });
+            panic!("wn-panic#{n}");
+        }
+        W::new_rest(n, oc, gates)
+    }
+}
+
+impl W {
+    async fn new_rest(n: usize, oc: WnOc, gates: u8) -> Result<Self, String> {
         for g in 0..gates {
             gate(format!("cb:WorldNew#{n}.{g}")).await;
         }
@@ -285,7 +315,7 @@ impl World for W {
         match oc {
             WnOc::Ok => Ok(W { id: id.unwrap_or(0), counter: 0 }),
             WnOc::Err => Err(format!("wn-err#{n}")),
-            WnOc::Panic => panic!("wn-panic#{n}"),
+            WnOc::Panic | WnOc::PanicEager => panic!("wn-panic#{n}"),
         }
     }
 }
